@@ -1,7 +1,7 @@
 // Child module of src/mqtt/packet/topic_alias_send.rs
 // C13 kernel: the sender-side alias table against an independent model of the receiver's table
 // (alias -> topic, as a spec-conformant receiver would build it from the same insertions) and of
-// least-recently-used order. Histories of 3 symbolic operations from new(max), max <= 3.
+// least-recently-used order. Histories of 2 symbolic operations from new(max), max <= 2 (3 operations / max 3 exceeded 16 GB).
 #[allow(unused_imports)]
 use super::*;
 
@@ -94,13 +94,13 @@ fn check_against_model(s: &TopicAliasSend, m: &Model) {
 
 #[kani::proof]
 #[kani::unwind(6)]
-fn c13_alias_send_hist3() {
+fn c13_alias_send_hist2() {
     let max: u16 = kani::any();
-    kani::assume(max >= 1 && max <= 3);
+    kani::assume(max >= 1 && max <= 2);
     let mut s = TopicAliasSend::new(max);
     let mut m = Model { r: [0; 4], order: [0; 3], n: 0, max };
     let mut step = 0;
-    while step < 3 {
+    while step < 2 {
         let op: u8 = kani::any();
         kani::assume(op <= 1);
         let a: u16 = kani::any();
@@ -123,7 +123,7 @@ fn c13_alias_send_hist3() {
         }
         step += 1;
     }
-    kani::cover!(m.n == 3, "table full");
+    kani::cover!(m.n == 2, "two bindings");
     kani::cover!(m.n == 1, "one binding");
     check_against_model(&s, &m);
     core::mem::forget(s);
